@@ -156,7 +156,8 @@ class AuditProcFamily(Family):
             return "%s %d %d %d" % ((c["id"],) + tuple(c["cb"]))
         if c.get("reasm"):
             return "%s %d %d %s" % (c["id"], c["reasm"][0], c["reasm"][1], ";".join(c["ops"]))
-        return "%s %s %s%s" % (c["id"], c["fail"], ";".join(c["ops"]), (" after=%d" % c["after"]) if c.get("after") else "")
+        return "%s %s %s%s%s" % (c["id"], c["fail"], ";".join(c["ops"]), (" after=%d" % c["after"]) if c.get("after") else "",
+                                 " stall=1" if c.get("stall") else "")
 
     def driver_line(self, c, impl_obs):
         s = self.harness_line(c)
@@ -165,6 +166,8 @@ class AuditProcFamily(Family):
         return s
 
     def sample(self, c):
+        if c.get("stall"):
+            return {"fail_at_write": c["fail"], "ops": c["ops"], "failing_write_hangs_while_a_login_arrives": True}
         if c.get("cb"):
             return {"callback_from_goroutines": c["cb"][0], "deliveries_each": c["cb"][1], "variant": c["cb"][2]}
         if c.get("after"):
@@ -273,7 +276,15 @@ class AuditProcFamily(Family):
         # first, so that the thorough tier's race-detector pass (first cases) covers concurrent deliveries
         # the callback itself handed groups from several Go routines at once (the reassembler calls it outside its lock)
         cb = [dict(ops=[], fail="-", cb=(g, n, v)) for g, n, v in ((2, 300, 0), (3, 200, 1), (2, 1500, 1))]
-        cs = flow + cb + cs
+        # the failing write hangs first (a slow output) and a login arrives on the other stream meanwhile: the failure is
+        # reported while Read's loop is busy outside its select (the one-slot error channel must hold it)
+        st = []
+        for c in cs:
+            if c.get("fail", "-") != "-" and not c.get("reasm") and not c.get("after") and "W" not in c["ops"] and "V" not in c["ops"]:
+                st.append(dict(c, stall=True))
+                if len(st) >= (40 if quick else 400):
+                    break
+        cs = flow + cb + cs + st
         return cs
 
     def extra_cases(self, rng, n):
